@@ -19,6 +19,14 @@ from yamlpath.exceptions import YAMLPathException
 from yamlpath.wrappers import NodeCoords
 from yamlpath import YAMLPath
 
+class _UnhashableValue:
+    """Identity-hashed holder for values which cannot be dictionary keys."""
+
+    def __init__(self, value: Any) -> None:
+        """Wrap an unhashable value."""
+        self.value = value
+
+
 class KeywordSearches:
     """Helper methods for common data searching operations."""
 
@@ -888,6 +896,31 @@ class KeywordSearches:
 
 
     @staticmethod
+    def _track_seen_value(
+        seen_values: Dict[Any, List[NodeCoords]], eval_val: Any,
+        wrapped_ele: NodeCoords
+    ) -> None:
+        """Group a node with the others of equal value, hashable or not."""
+        seen_key = eval_val
+        try:
+            hash(seen_key)
+        except TypeError:
+            # Complex (unhashable) values are grouped by equality
+            for known_key in seen_values:
+                if (isinstance(known_key, _UnhashableValue)
+                    and known_key.value == eval_val
+                ):
+                    seen_key = known_key
+                    break
+            else:
+                seen_key = _UnhashableValue(eval_val)
+
+        if seen_key in seen_values:
+            seen_values[seen_key].append(wrapped_ele)
+        else:
+            seen_values[seen_key] = [wrapped_ele]
+
+    @staticmethod
     # pylint: disable=locally-disabled,too-many-locals,too-many-branches,too-many-statements
     def distinct(
         data: Any, invert: bool, parameters: List[str], yaml_path: YAMLPath,
@@ -961,10 +994,8 @@ class KeywordSearches:
                     if isinstance(raw_ele, NodeCoords) else raw_ele)
                 if eval_ele is not None and scan_node in eval_ele:
                     eval_val = eval_ele[scan_node]
-                    if eval_val in seen_values:
-                        seen_values[eval_val].append(wrapped_ele)
-                    else:
-                        seen_values[eval_val] = [wrapped_ele]
+                    KeywordSearches._track_seen_value(
+                        seen_values, eval_val, wrapped_ele)
 
         elif isinstance(data, dict):
             # A named child node is mandatory
@@ -985,10 +1016,8 @@ class KeywordSearches:
                             val, data, key, next_path, next_ancestry,
                             relay_segment)
                         eval_val = val[scan_node]
-                        if eval_val in seen_values:
-                            seen_values[eval_val].append(wrapped_ele)
-                        else:
-                            seen_values[eval_val] = [wrapped_ele]
+                        KeywordSearches._track_seen_value(
+                            seen_values, eval_val, wrapped_ele)
 
                 elif scan_node in data:
                     # The user probably meant to operate against the parent
@@ -1018,16 +1047,15 @@ class KeywordSearches:
                     if isinstance(ele, NodeCoords) else NodeCoords(
                         ele, data, idx, next_path, next_ancestry,
                         relay_segment))
-                if eval_val in seen_values:
-                    seen_values[eval_val].append(wrapped_ele)
-                else:
-                    seen_values[eval_val] = [wrapped_ele]
+                KeywordSearches._track_seen_value(
+                    seen_values, eval_val, wrapped_ele)
 
         else:
             # Non-complex data is always unique
-            seen_values[data] = [NodeCoords(
-                data, parent, parentref, translated_path, ancestry,
-                relay_segment)]
+            KeywordSearches._track_seen_value(
+                seen_values, data, NodeCoords(
+                    data, parent, parentref, translated_path, ancestry,
+                    relay_segment))
 
         # Yield the first of every match
         for nodes in seen_values.values():
@@ -1103,10 +1131,8 @@ class KeywordSearches:
                     if isinstance(raw_ele, NodeCoords) else raw_ele)
                 if eval_ele is not None and scan_node in eval_ele:
                     eval_val = eval_ele[scan_node]
-                    if eval_val in seen_values:
-                        seen_values[eval_val].append(wrapped_ele)
-                    else:
-                        seen_values[eval_val] = [wrapped_ele]
+                    KeywordSearches._track_seen_value(
+                        seen_values, eval_val, wrapped_ele)
 
         elif isinstance(data, dict):
             # A named child node is mandatory
@@ -1127,10 +1153,8 @@ class KeywordSearches:
                             val, data, key, next_path, next_ancestry,
                             relay_segment)
                         eval_val = val[scan_node]
-                        if eval_val in seen_values:
-                            seen_values[eval_val].append(wrapped_ele)
-                        else:
-                            seen_values[eval_val] = [wrapped_ele]
+                        KeywordSearches._track_seen_value(
+                            seen_values, eval_val, wrapped_ele)
 
                 elif scan_node in data:
                     # The user probably meant to operate against the parent
@@ -1160,16 +1184,15 @@ class KeywordSearches:
                     if isinstance(ele, NodeCoords) else NodeCoords(
                         ele, data, idx, next_path, next_ancestry,
                         relay_segment))
-                if eval_val in seen_values:
-                    seen_values[eval_val].append(wrapped_ele)
-                else:
-                    seen_values[eval_val] = [wrapped_ele]
+                KeywordSearches._track_seen_value(
+                    seen_values, eval_val, wrapped_ele)
 
         else:
             # Non-complex data is always unique
-            seen_values[data] = [NodeCoords(
-                data, parent, parentref, translated_path, ancestry,
-                relay_segment)]
+            KeywordSearches._track_seen_value(
+                seen_values, data, NodeCoords(
+                    data, parent, parentref, translated_path, ancestry,
+                    relay_segment))
 
         # Yield the non/unique matches
         if invert:
